@@ -51,9 +51,12 @@ def describe():
 DENY = ("drop_invalid_rows", "name_collision", "subsample")
 
 
-def _spec(rng, backend, kind=None, want_cb=0.5, deny=DENY):
+SHARED_FORCE = ("coerce", "multiindex", "index", "regex", "schema_dtype")   # everything validated through a temporary override
+
+
+def _spec(rng, backend, kind=None, want_cb=0.5, deny=DENY, force=()):
     for _ in range(10):
-        g = world.SpecGen(rng, want_callbacks=want_cb, backend=backend, deny=deny)
+        g = world.SpecGen(rng, want_callbacks=want_cb, backend=backend, deny=deny, force=force)
         spec = g.schema(kind=kind)
         try:
             world.build_schema(spec)
@@ -78,7 +81,8 @@ def gen_workload(rng, idx):
 
     if cfg in ("shared-pandas", "shared-polars"):
         backend = "pandas" if cfg == "shared-pandas" else "polars"
-        g, spec = _spec(rng, backend, kind=rng.choice(["dfs", "dfs", "dfs", "series", "column"] if backend == "pandas" else ["dfs", "dfs", "column"]))
+        g, spec = _spec(rng, backend, kind=rng.choice(["dfs", "dfs", "dfs", "series", "column"] if backend == "pandas" else ["dfs", "dfs", "column"]),
+                        force=SHARED_FORCE)
         subjects.append(spec)
         for _ in range(n):
             add_call(g, 0, backend, pl_lazy=(False if backend == "polars" else None))
@@ -99,7 +103,7 @@ def gen_workload(rng, idx):
             add_call(g, i, "polars", pl_lazy=(i % 2 == 0))
     elif cfg == "models-cold":
         backend = rng.choice(["pandas", "polars"])
-        g, spec = _spec(rng, backend, kind="model")
+        g, spec = _spec(rng, backend, kind="model", force=("coerce",))
         subjects.append(spec)
         for _ in range(n):
             add_call(g, 0, backend, pl_lazy=(False if backend == "polars" else None))
@@ -339,7 +343,10 @@ def _run_workload(wl, policy_or_rng, reset_config):
     cfg0 = config_fp()
 
     subs, frames = build_objects(wl)
-    fps0 = [_subject_fp(s) for s in subs]
+    # "before" state.  A DataFrameModel compiles and caches its schema on first use: fingerprinting the subject itself would
+    # do that first use here, sequentially, and the concurrent calls would never race on it.  Its "before" is therefore the
+    # fingerprint of a twin class built from the same spec (equal by construction), and the subject stays uncompiled.
+    fps0 = [_subject_fp(world.build_schema(wl["subjects"][i])) if isinstance(s, type) else _subject_fp(s) for i, s in enumerate(subs)]
     frames0 = [canon_obj(f) for f in frames]
     fns = [call_fn(subs[c["subject"]], frames[i], c, True) for i, c in enumerate(wl["calls"])]
     if isinstance(policy_or_rng, dict):
